@@ -125,6 +125,8 @@ def tally_variation(ctx, spec, prefix):
     if spec.get("phased_input"):
         t("phased_vcf_as_phase_input")
     t(f"nchrom={spec['nchrom']}")
+    if spec.get("readless") is not None:
+        t("family_member_without_reads")
     if spec.get("large"):
         t("large_many_variants_long_inserts")
         for thr in (64, 128, 256):
@@ -169,6 +171,21 @@ def make_large_spec(rng, nvars, **kw):
     spec = make_spec(rng, nvars=nvars, **kw)
     spec["insert_range"] = rng.choice([[1500, 6000], [4000, 12000], [200, 20000]])
     spec["large"] = True
+    return spec
+
+
+def make_readless_spec(rng):
+    """pedigree + --distrust-genotypes with a genotyped family member that has NO reads and is homozygous at many variants
+    where the members with reads are heterozygous: its homozygous positions alone bridge read components (master block)."""
+    fam = rng.choice(["trio", "trio", "quartet"])
+    nroles = 3 if fam == "trio" else 4
+    spec = make_spec(rng, trio=True, family=fam, k=rng.choice([4, 6, 8]), nvars=rng.randint(8, 16), depth_reads=rng.randint(12, 50),
+                     het_fraction=1.0, genetic=rng.random() < 0.85, distrust=rng.random() < 0.8, phased_input=False,
+                     low_cov_gaps=True, nchrom=1, var={"prephased": False, "only_snvs": False})
+    spec["kinds"] = ["snv"]
+    readless = rng.choice([0, 0, 1, 1, 2])
+    spec["readless"] = [readless] + ([rng.choice([r for r in range(nroles) if r != readless])] if rng.random() < 0.15 else [])
+    spec["hom_role"] = {"role": readless if readless < 2 else rng.choice([0, 1]), "fraction": rng.choice([0.3, 0.5, 0.8])}
     return spec
 
 
@@ -367,6 +384,12 @@ def build_inputs(spec, wd):
     sc = synth.make_scenario(rng, nchrom=spec["nchrom"], nsamples=len(roles), nvars=spec["nvars"],
                              sample_names=roles, het_fraction=spec["het_fraction"], min_gap=spec["min_gap"],
                              kinds=tuple(spec.get("kinds") or ("snv", "snv", "ins", "del", "mnp")))
+    if spec.get("hom_role"):
+        # one parent homozygous at a random subset of the variants (everybody else heterozygous there, children by inheritance)
+        r = roles[spec["hom_role"]["role"]]
+        for c in sc.chroms:
+            sc.haps[r][c] = [rng.choice([(0, 0), (1, 1)]) if rng.random() < spec["hom_role"]["fraction"] else h
+                             for h in sc.haps[r][c]]
     if spec["trio"]:
         for c in sc.chroms:
             child, _ = synth.inherit(rng, sc.haps["father"][c], sc.haps["mother"][c], recomb_prob=0.0)
@@ -392,6 +415,8 @@ def build_inputs(spec, wd):
     stacked = spec.get("stacked")
     for si, s in enumerate(samples):
         for c in sc.chroms:
+            if si in (spec.get("readless") or []):
+                continue                       # genotyped family member without any read
             if si >= len(base_roles(spec)):
                 # an extra unrelated sample next to the family: ordinary reads
                 reads += synth.simulate_reads(rng, sc, s, c, max(spec["depth_reads"], 30), len_range=tuple(spec["len_range"]),
